@@ -169,6 +169,7 @@ PROPS = {
         "stages": [
             {"name": "reuse-measured", "test": "TestC10ReuseMeasured", "tags": "verif", "quick": {"shards": 1, "timeout": 120}, "thorough": {"shards": 1, "timeout": 120}, "nostats": True},
             rapid_stage("history", "TestC10", 150, 1200),
+            {"name": "history-fixed", "test": "TestC10Fixed", "tags": "verif", "quick": {"shards": 1, "timeout": 600}, "thorough": {"shards": 1, "timeout": 1500}},
             rapid_stage("history-vectors", "TestC10", 60, 400, tags="verif,vectors", tshards=4),
             {"name": "concurrent", "test": "TestC10Concurrent", "tags": "verif",
              "quick": {"checks": 40, "shards": 1, "timeout": 300, "race": True}, "thorough": {"checks": 150, "shards": 8, "timeout": 1500, "race": True}},
